@@ -97,8 +97,10 @@ def jwe_allow_args(allow: dict, via: str, jwt: bool = False):
 # ----------------------------------------------------------------------------- JWS
 def jws_header(alg, ser: str, extra: dict | None = None) -> dict:
     h = {"alg": conc_name(alg)}
-    if ser.startswith("7797"):
+    if ser in ("7797compact", "7797json"):
         h.update({"b64": False, "crit": ["b64"]})
+    elif ser.endswith("_true"):
+        h.update({"b64": True, "crit": ["b64"]})
     if extra:
         h.update(extra)
     return h
@@ -124,9 +126,9 @@ def jws_produce(ser: str, header: dict, payload: bytes, key, **allow):
         return jws.serialize_json({"protected": header}, payload, key, **allow)
     if ser == "general":
         return jws.serialize_json([{"protected": header}], payload, key, **allow)
-    if ser == "7797compact":
+    if ser.startswith("7797compact"):
         return rfc7797.serialize_compact(header, payload, key, **allow)
-    if ser == "7797json":
+    if ser.startswith("7797json"):
         return rfc7797.serialize_json({"protected": header}, payload, key, **allow)
     if ser == "jwt":
         return jwt.encode(header, json.loads(payload), key, **allow)
@@ -143,15 +145,15 @@ def jws_forge(ser: str, header: dict, payload: bytes, jwk: dict, valid: bool = T
         seg = R.b64e(octets)
         sig = R.b64e(b"\x01" * 32)
         body = R.b64e(payload) if b64 else payload
-        if ser in ("compact", "7797compact", "jwt"):
+        if ser in ("compact", "jwt") or ser.startswith("7797compact"):
             return (seg + b"." + body + b"." + sig).decode()
         m = {"payload": body.decode(), "protected": seg.decode(), "signature": sig.decode()}
         if ser == "general":
             return {"payload": m.pop("payload"), "signatures": [m]}
         return m
-    if ser in ("compact", "7797compact", "jwt"):
+    if ser in ("compact", "jwt") or ser.startswith("7797compact"):
         return R.jws_compact(octets, payload, alg, jwk, b64=b64)
-    if ser in ("flattened", "7797json"):
+    if ser == "flattened" or ser.startswith("7797json"):
         return R.jws_flattened(octets, None, payload, alg, jwk, b64=b64)
     if ser == "general":
         return R.jws_general([(octets, None, alg, jwk)], payload)
@@ -164,9 +166,9 @@ def jws_consume(ser: str, token, key, **allow):
         return jws.deserialize_compact(token, key, **allow).payload
     if ser in ("flattened", "general"):
         return jws.deserialize_json(token, key, **allow).payload
-    if ser == "7797compact":
+    if ser.startswith("7797compact"):
         return rfc7797.deserialize_compact(token, key, **allow).payload
-    if ser == "7797json":
+    if ser.startswith("7797json"):
         return rfc7797.deserialize_json(token, key, **allow).payload
     if ser == "jwt":
         return R.jdump(jwt.decode(token, key, **allow).claims)
